@@ -25,10 +25,18 @@ pub struct NumericParts {
 impl From<Numeric> for NumericParts {
     fn from(value: Numeric) -> NumericParts {
         let (exact, approx) = value.string_repr(10, Digits::Default);
-        let (num, den) = value.to_rational();
+        // NaN and the infinities have no numerator/denominator: use their
+        // printed form over 1 instead of panicking.
+        let (numer, denom) = match value {
+            Numeric::Float(f) if !f.is_finite() => (value.to_string(10, Digits::Default).1, "1".to_owned()),
+            _ => {
+                let (num, den) = value.to_rational();
+                (num.to_string(), den.to_string())
+            }
+        };
         NumericParts {
-            numer: num.to_string(),
-            denom: den.to_string(),
+            numer,
+            denom,
             exact_value: exact,
             approx_value: approx,
         }
